@@ -1489,10 +1489,10 @@ static void DecodeBANZ(Word Index) {
     } else if (DecodeAdr(&ArgStr[2], MModMem)) {
         tEvalResult EvalResult;
 
-        if (CodeLen) {
+        if (AdrCnt) {
             WAsmCode[1] = 1 [AdrVals];
         }
-        WAsmCode[1 + CodeLen]
+        WAsmCode[1 + AdrCnt]
                 = EvalStrIntExpressionWithResult(&ArgStr[1], UInt16, &EvalResult);
         if (EvalResult.OK) {
             ChkSpace(SegCode, EvalResult.AddrSpaceMask);
